@@ -326,6 +326,7 @@ type StackCfg struct {
 	TimeoutMs   int    `json:"timeout_ms,omitempty"`
 	Evict       bool   `json:"evict,omitempty"`
 	DeadlineMs  int    `json:"deadline_ms,omitempty"`
+	FmtLog      bool   `json:"fmt_log,omitempty"`      // every component of the stack is handed a logger with debug output enabled that really formats its arguments (and discards the text)
 	TimeoutNs   int64  `json:"timeout_ns,omitempty"`   // overrides TimeoutMs when non-zero
 	DeadlineNs  int64  `json:"deadline_ns,omitempty"`  // overrides DeadlineMs when non-zero
 	DeadlineFar int    `json:"deadline_far,omitempty"` // deadline limiter: a deadline far in the future: 1 = t0 + MaxInt64 ns, 2 = year 2500, 3 = year 9999; 4 = the zero time.Time, i.e. long past (overrides the others)
@@ -417,7 +418,11 @@ func buildStack(cfg StackCfg, lim core.Limit, sc *sched, t0 time.Time) (*stack, 
 		if cfg.TimeoutNs != 0 {
 			timeout = time.Duration(cfg.TimeoutNs)
 		}
-		p, err := pool.NewFixedPool("p", ord, cfg.Limit, 10, time.Millisecond, time.Millisecond, 0, cfg.Backlog, timeout, nil, s.reg)
+		var flog limit.Logger
+		if cfg.FmtLog {
+			flog = debugDiscardLogger{}
+		}
+		p, err := pool.NewFixedPool("p", ord, cfg.Limit, 10, time.Millisecond, time.Millisecond, 0, cfg.Backlog, timeout, flog, s.reg)
 		if err != nil {
 			return nil, err
 		}
@@ -466,13 +471,20 @@ func buildStack(cfg StackCfg, lim core.Limit, sc *sched, t0 time.Time) (*stack, 
 	if cfg.WinNs > 0 {
 		win = cfg.WinNs
 	}
-	def, err := limiter.NewDefaultLimiter(lim, win, win, 1, 10, st, nil, s.reg)
+	var dlog limit.Logger
+	if cfg.FmtLog {
+		dlog = debugDiscardLogger{}
+	}
+	def, err := limiter.NewDefaultLimiter(lim, win, win, 1, 10, st, dlog, s.reg)
 	if err != nil {
 		return nil, err
 	}
 	s.def = def
 	var delegate core.Limiter = def
 	var logger limit.Logger
+	if cfg.FmtLog {
+		logger = debugDiscardLogger{}
+	}
 	if cfg.Inject && sc != nil {
 		delegate = &yieldLimiter{def, sc}
 		logger = schedLogger{sc}
@@ -581,6 +593,9 @@ func (c StackCfg) effTimeout() time.Duration {
 		if c.Defaults || (c.TimeoutMs == 0 && c.TimeoutNs == 0) {
 			return time.Second
 		}
+	}
+	if c.TimeoutNs < 0 || c.TimeoutMs < 0 {
+		return time.Second // "use the default": only used to size waits
 	}
 	if c.TimeoutNs != 0 {
 		return time.Duration(c.TimeoutNs)
